@@ -357,6 +357,10 @@ def transport_junk_case(ctx, i):
     res, stats = T.run(kind, [pieces], [0] * len(pieces), for_blobs=[blob])
     ctx.count("transport_junk_runs")
     ctx.count("process_calls", stats["calls"])
+    if stats.get("max_cpu", 0.0) > bufmon.CPU_LIMIT:
+        ctx.violate(f"transport:process-hang:{kind}", f"one Buffer.process call inside the {kind} handler burnt {stats['max_cpu']:.2f} s of CPU time",
+                    {"mode": "transport-junk", "i": i}, {"pieces": pieces})
+        return
     ctx.seen("transport_junk_kinds", kind + (":blob-mode" if blob else ""))
     case = {"mode": "transport-junk", "i": i}
     detail = {"kind": kind, "blob_mode": blob, "pieces": pieces}
